@@ -10,7 +10,7 @@
    C12_condense_split); what remains assumed of the model is H_rules_local alone. *)
 Require Import Base Overlap Tables_lexer Lexer Condense TokenInv CondenseInv ParaSplit ParaSplitProofs C12Doc LexSplitProofs LongSentencesSeam
   C12CondSpaces C12CondSuffix C12CondPattern C12CondPatterns3 C12CondInit C12CondQuotes C12LexEnds C12CondSplit
-  Tables_c12rules C12RuleShapes.
+  Tables_c12rules C12RuleShapes C12Merge C12MergeProofs C12Main.
 From Coq Require Import Sorting.Permutation.
 
 (* the index arithmetic of iter_chunks / iter_sentences / iter_paragraphs never slices out of range and
@@ -393,6 +393,70 @@ Check C12_classified_rules_local :
          struct_rules.
 Print Assumptions C12_classified_rules_local.
 
+
+(* ---------- phase 4: the document-wide remove_overlaps shapes, and the final theorem ---------- *)
+(* merge_linters! = remove_overlaps over the union of the sub-rules' lints: paragraph-local when every sub-rule is, and
+   every lint a sub-rule reports for the first part starts before |P| and ends at or before |P| (rule_inside; the
+   strictness is needed: C12_remove_overlaps_needs_strict) *)
+Theorem C12_merge_local : forall subs,
+  Forall para_local subs -> Forall rule_inside subs -> para_local (merge_rule subs).
+Proof. exact merge_local. Qed.
+Check C12_merge_local : forall subs,
+  Forall para_local subs -> Forall rule_inside subs -> para_local (merge_rule subs).
+Print Assumptions C12_merge_local.
+
+(* CurrencyPlacement's shape: one rule followed by remove_overlaps over the document's lints *)
+Theorem C12_then_remove_overlaps_local : forall r,
+  para_local r -> rule_inside r -> para_local (then_remove_overlaps r).
+Proof. exact then_remove_overlaps_local. Qed.
+Check C12_then_remove_overlaps_local : forall r,
+  para_local r -> rule_inside r -> para_local (then_remove_overlaps r).
+Print Assumptions C12_then_remove_overlaps_local.
+
+(* an iterator-schema instance reports inside the first part when its per-slice body reports inside the slice *)
+Theorem C12_schema_inside : forall p g0, g0_inside g0 -> rule_inside (schema_rule p g0).
+Proof. exact schema_inside. Qed.
+Check C12_schema_inside : forall p g0, g0_inside g0 -> rule_inside (schema_rule p g0).
+Print Assumptions C12_schema_inside.
+
+(* the table side (regenerated every run): exactly FIVE struct rules are outside every proved shape; exactly ten
+   per-slice bodies run under a document-wide remove_overlaps; the rest (69) are covered *)
+Theorem C12_residue_pinned :
+  residue = residue_expected /\ ro_bodies = ro_bodies_expected /\
+  length (filter covered struct_rules) + length residue_expected = length struct_rules.
+Proof. exact residue_pinned. Qed.
+Check C12_residue_pinned :
+  residue = residue_expected /\ ro_bodies = ro_bodies_expected /\
+  length (filter covered struct_rules) + length residue_expected = length struct_rules.
+Print Assumptions C12_residue_pinned.
+
+(* THE PROPERTY with H_rules_local reduced to its residue.  The struct rules are the 74 rows of the generated table,
+   each read as the instance of the shape the table gives it, for ARBITRARY per-slice bodies g0 (by rule / sub-rule
+   name); the pattern rules are an ARBITRARY chunk function.  Assumed: the four facts about the newline character;
+   para_local for the five rules of residue_expected (AdjectiveOfA, UnclosedQuotes, CommaFixes, MergeWords,
+   InflectedVerbAfterTo); g0_inside for the ten bodies of ro_bodies_expected.  Still `_partial` in spirit for exactly
+   these reasons and because D must not start with a newline. *)
+Theorem C12_main : forall u,
+  u_whitespace u NL = true -> u_numeric u NL = false -> u_alphabetic u NL = false -> u_lingual u NL = false ->
+  forall chunk_fn (g0 : String.string -> body) (other : String.string -> rule),
+  (forall name, In name residue_expected -> para_local (other name)) ->
+  (forall b, In b ro_bodies_expected -> g0_inside (g0 b)) ->
+  forall P D, c12_premise P -> no_leading_nl D ->
+    Permutation (lints (doc_tokens u) chunk_fn (curated_rules g0 other) (P ++ D))
+                (lints (doc_tokens u) chunk_fn (curated_rules g0 other) P
+                 ++ map (shift_lint (length P)) (lints (doc_tokens u) chunk_fn (curated_rules g0 other) D)).
+Proof. exact main. Qed.
+Check C12_main : forall u,
+  u_whitespace u NL = true -> u_numeric u NL = false -> u_alphabetic u NL = false -> u_lingual u NL = false ->
+  forall chunk_fn (g0 : String.string -> body) (other : String.string -> rule),
+  (forall name, In name residue_expected -> para_local (other name)) ->
+  (forall b, In b ro_bodies_expected -> g0_inside (g0 b)) ->
+  forall P D, c12_premise P -> no_leading_nl D ->
+    Permutation (lints (doc_tokens u) chunk_fn (curated_rules g0 other) (P ++ D))
+                (lints (doc_tokens u) chunk_fn (curated_rules g0 other) P
+                 ++ map (shift_lint (length P)) (lints (doc_tokens u) chunk_fn (curated_rules g0 other) D)).
+Print Assumptions C12_main.
+
 (* ---------- non-vacuity ---------- *)
 
 (* ---------- one rule body: LongSentences as repaired by 1bab09f (finding FC12a) ---------- *)
@@ -553,3 +617,27 @@ Qed.
    one-token window rule, a MapPhraseLinter registered as a struct rule a chunk-schema rule *)
 Example C12_rule_shapes_nonvacuous : incl rule_rows_example struct_rules /\ length struct_rules = 74.
 Proof. exact rule_shapes_example. Qed.
+
+(* `start < |P|` in rule_inside is needed: the sort key is (start, MAX - end), so an EMPTY lint 2..2 of the first part
+   sorts behind the lint 2..3 of the second part and is dropped; alone both are kept *)
+Example C12_remove_overlaps_needs_strict :
+  let a := mklint (mkspan 2 2) 0 in let b := mklint (mkspan 0 1) 1 in
+  remove_overlaps ([a] ++ map (shift_lint 2) [b]) = [shift_lint 2 b] /\
+  remove_overlaps [a] ++ map (shift_lint 2) (remove_overlaps [b]) = [a; shift_lint 2 b].
+Proof. exact ro_needs_strict. Qed.
+
+(* the hypotheses of C12_main are satisfiable: bodies reporting the first character and the whole of every slice are
+   inside; one-token window rules for the five residue names; 74 rules; a merged rule over two such bodies really drops
+   overlapping lints (8 collected, 2 kept) *)
+Example C12_main_final_hyps_satisfiable :
+  (forall name, In name residue_expected -> para_local (ex_other name)) /\
+  (forall b, In b ro_bodies_expected -> g0_inside (ex_g0 b)) /\
+  length (curated_rules ex_g0 ex_other) = 74 /\
+  (let ts := [ParaSplit.mktok (mkspan 0 2) ParaSplit.KWord; ParaSplit.mktok (mkspan 2 3) KComma;
+              ParaSplit.mktok (mkspan 3 4) ParaSplit.KSpace; ParaSplit.mktok (mkspan 4 6) ParaSplit.KWord] in
+   let src := [72; 105; 44; 32; 121; 111]%N in
+   map (fun l => (lstart l, lend l))
+       (merge_rule ex_merge_subs ts src)
+   = [(0, 3); (3, 6)] /\
+   length (flat_map (fun r => r ts src) ex_merge_subs) = 8).
+Proof. exact main_hyps_satisfiable. Qed.
